@@ -359,7 +359,9 @@ class Context:
             self.logger.warn('Context.load_processes: failed to get all process info from'
                              f' Supvisors={status.usage_identifier}')
             # go back to STOPPED to give it a chance at next TICK
-            status.state = SupvisorsInstanceStates.STOPPED
+            # NOTE: an obsolete notification may be received in another state (see below)
+            if status.state == SupvisorsInstanceStates.CHECKING:
+                status.state = SupvisorsInstanceStates.STOPPED
         elif not check_state or status.state == SupvisorsInstanceStates.CHECKING:
             # TODO: check process remote monotonic time vs CHECKING local time
             # store processes into their application entry
